@@ -917,6 +917,10 @@ def run(pid, tier, replay=None):
     if pid == "C03":
         from checks import longchain
         longchain.stage(chk, quick, rng, pid)
+        from checks import minedblocks
+        rc_ = minedblocks.stage(chk, quick, rng, pid)
+        if rc_:
+            return rc_
     if pid in ("C01", "C02", "C05"):
         # ---- the verdict of full validation is a function of (block, chain, clock) -- also while the miner's thread assembles a candidate
         #      from the same chain state and a pending transaction (Interfere.tla; preemption-point exploration on real threads)
@@ -1020,8 +1024,8 @@ def run(pid, tier, replay=None):
                 run_.close()
         nodechk.judge(chk, ntraces, nlabels, nconsts)
         sk.restore_cfg()
-    if pid in ("C01", "C02", "C03"):
-        # ---- the ledger state a restarted node validates against: a crash at every SQL statement of a flush of the real store, then the real
+    if pid in ("C01", "C02", "C03", "C05"):
+        # ---- the ledger state (C05: the chain whose bytes the proof-of-work evidence samples) a restarted node validates against: a crash at every SQL statement of a flush of the real store, then the real
         #      start-up path (StoreCrash.tla; TraceStore op "crash")
         from checks import store as storechk
         cfg_s = sk.Cfg(**storechk.MODEL_CFG)
